@@ -6,7 +6,7 @@ import jsongen as J
 hx = lambda b: (b.hex() if b else "-")
 
 IFACE_POOL = [b"a.b", b"a.b.c", b"a", b"org.example", b"org.example.more", b"org.varlink.servicex", b"org.varlink", b"x.y", "ü.x".encode(),
-              b"a.bc", b"b", b"a.B", b"org.varlink.service.sub"]
+              b"a.bc", b"b", b"a.B", b"org.varlink.service.sub", b""]   # the empty name can be registered too: "Ping" must still be a method without interface part
 METHODS = [b"M", b"Ping", b"Q", b"GetInfo", b"m", "Mé".encode(), b"M9"]
 SVC = b"org.varlink.service"
 
@@ -98,6 +98,8 @@ class Step:
     def text(self):
         if self.kind in ("b", "w"):
             return self.kind + self.arg.decode()
+        if self.kind == "d":
+            return "d0%s:%s" % (self.policy, self.val)
         if self.kind == "r":
             return "r%d%s:%s" % (1 if self.cont else 0, self.policy, self.val)
         if self.kind == "e":
